@@ -18,13 +18,13 @@ func init() {
 	register("C07", streamMarkers)
 	register("C10", streamEscape, streamSplits)
 	register("C09", streamSplits)
-	register("C01", streamBuffer)
-	register("C03", streamBuffer)
+	register("C01", streamBuffer, streamEscape)
+	register("C03", streamBuffer, streamEscape)
 	register("C09", streamBuffer)
 	register("C13", streamBuffer)
 	register("C01", streamPrinterWF, streamCompose)
 	register("C03", streamPrinterWF)
-	register("C11", streamTotality, streamPrinterWF, streamStars, streamNestedPanics)
+	register("C11", streamTotality, streamPrinterWF, streamStars, streamNestedPanics, streamHook)
 	register("C01", streamNestedPanics)
 	register("PM", streamPrinterModel)
 	for _, p := range []string{"C01", "C02", "C04", "C05", "C06", "C08", "C09", "C11", "C12", "C15", "C16", "C17"} {
